@@ -4,7 +4,8 @@ M3: Verifier.tla with the verifier key as prover-chosen data unless KeyPinned: w
     (Verifier.cfg); with the key left to the prover TLC exhibits the accepted behaviour - a commitment entry that no query
     selects (Verifier_unpinned.cfg must report it).
 M1: wrappers (VerifierCircuit and CircuitFixed) instantiated from a build-time template and a proving-time assignment with a
-    different key: each of the 17 key elements x {+1, random, zero}, the other circuit's complete key, random keys; the query
+    different key: each of the 17 key elements x {+1, random, zero}, the other circuit's complete key, random keys, the right key with its
+    commitment entries permuted (a selected entry swapped with another, the cap rotated); the query
     indices of the proof at hand are computed by the real circuit, so "selected by no query" is known per case.
 """
 import random
@@ -32,6 +33,7 @@ def run(ctx):
             for k in ([1, 28] if thorough else [1]):
                 cases = [{"kind": "entry", "path": p, "op": op, "wrapper": w} for p in paths for op in ("+1", "random", "zero")]
                 cases += [{"kind": "other", "other": other, "wrapper": w}] + [{"kind": "random", "wrapper": w} for _ in range(3)]
+                cases += [{"kind": "permute", "wrapper": w}]
                 for i in range(4):
                     jobs.append({"part": "c04", "instance": inst, "k": k, "c04": cases[i::4], "shard": i + 10 * k})
 
